@@ -143,6 +143,12 @@ func IntFromString(str string, base int) (Object, error) {
 		}
 	}
 
+	// The sign has been dealt with above: ParseInt and SetString
+	// would accept another one
+	if s[0] == '+' || s[0] == '-' {
+		goto error
+	}
+
 	// Use int64 conversion for short strings since 12**36 < IntMax
 	// and 10**18 < IntMax
 	if len(s) <= 12 || (convertBase <= 10 && len(s) <= 18) {
